@@ -367,6 +367,9 @@ func vfC09FaultedHandshake(t *testing.T, res *vfResult, idx int) {
 			cfg.CertKind = "ecdsa"
 		}
 		cfg.CVer, cfg.SVer = "dual", []string{"dual", "12", "13"}[(idx/5)%3]
+		if cfg.MTU > 0 && cfg.MTU < 100 {
+			cfg.MTU = 100 // DTLS 1.3 may be negotiated: below that its retransmission floods exceed the case watchdog
+		}
 		k := 1 + (idx/15)%3
 		mask.C = strings.Repeat("x", k) + mask.C[k:]
 		res.Count("dualstack_client_first_hello_lost", 1)
